@@ -20,11 +20,17 @@ package lib
 //   after the end: every direction closed both connections (unless the peer had closed that
 //   connection before), its own synchronous Close of the destination was entered and returned
 //   while the WaitGroup counter was still positive (only the source is closed by a detached
-//   goroutine), the WaitGroup is released exactly, no goroutine is left.
+//   goroutine), the WaitGroup is released exactly, no goroutine is left;
+//   the end of a direction is what tears the tunnel down: once a Read / Write / SetDeadline has
+//   handed a failure (EOF included) to a direction, the relay must never again come to rest with the
+//   tunnel still up - the harness never has to let virtual time pass (a deadline expire, a paused
+//   chunk arrive) after that moment. Either connection can be scripted half-closable (it then has
+//   CloseWrite / CloseRead like the *net.TCPConn Proxy dials): what the property demands is the same.
 
 import (
 	"fmt"
 	"io"
+	"net"
 	"reflect"
 	"runtime"
 	"sort"
@@ -537,6 +543,93 @@ func c05JudgeStreams(evs []c05Ev, done [2]int) (viols []c05Viol, accepted [2]int
 	return
 }
 
+// c05FirstFailure returns the first call that handed the failure of a side to a direction: a Read
+// that returned an error (EOF included), a Write or SetDeadline that returned an error - not results
+// that are the consequence of a Close, and not a short write with a nil error or a Read that only
+// broke its contract (a relay may, but need not, go on after those).
+func c05FirstFailure(evs []c05Ev) *c05Ev {
+	for i := range evs {
+		e := &evs[i]
+		if (e.Op == "read" || e.Op == "write" || e.Op == "setdl") && e.Err != "" && e.Err != "closed" && e.Err != "harness-wait-limit" {
+			return e
+		}
+	}
+	return nil
+}
+
+// c05JudgeIdle: "when either direction ends for any reason both connections are closed, the call
+// returns" - the end of a direction is the cause of the teardown. The scripted world lets virtual
+// time pass only when nothing else can happen (every direction is blocked in a Read of a connection
+// that nobody closed, or has returned). So if that becomes necessary after a direction has been
+// handed the failure of a side, the relay has come to rest with the tunnel still up: it is waiting
+// for the other side (its next chunk, its stall time-out) instead of tearing down. Decided by the
+// order of calls, not by any clock.
+func c05JudgeIdle(evs []c05Ev, wakes []c05Wake) *c05Viol {
+	f := c05FirstFailure(evs)
+	if f == nil {
+		return nil
+	}
+	for _, wk := range wakes {
+		if wk.Seq < f.Seq {
+			continue
+		}
+		who := "a direction"
+		if f.Dir >= 0 {
+			who = c05DirName[f.Dir]
+		}
+		how := fmt.Sprintf("virtual time had to pass (%v -> %v)", wk.From, wk.To)
+		if wk.NoDL {
+			how = "nothing at all could have released it (no read deadline in force)"
+		}
+		return &c05Viol{"no-teardown:tunnel-outlives-ended-direction", fmt.Sprintf("%s was handed %s at virtual time %v - that direction is over - yet afterwards the relay came to rest with the tunnel still up: every direction was blocked in a Read of a connection nobody had closed (or had returned), and %s before the parked Read of %s went on. The end of a direction did not tear the tunnel down; it only ends when the other side happens to send, fail or stall into its own time-out",
+			who, c05Describe(*f), f.VT, how, c05DirName[wk.Dir])}
+	}
+	return nil
+}
+
+// c05EndClasses labels how the tunnel's first end came about with respect to the half-close
+// capability of the connections: which direction was handed the first failure, whether it was a
+// clean end of stream, whether the connection it relays to is half-closable, and whether the other
+// side had nothing to say at that moment (its scripted bytes all read and the peer silent for good).
+func c05EndClasses(c c05Case, evs []c05Ev) (cl []string) {
+	if c.Client.HalfClose {
+		cl = append(cl, "caps:client-half-closable")
+	}
+	if c.Covert.HalfClose {
+		cl = append(cl, "caps:covert-half-closable")
+	}
+	if !c.Client.HalfClose && !c.Covert.HalfClose {
+		cl = append(cl, "caps:plain")
+	}
+	f := c05FirstFailure(evs)
+	if f == nil || f.Dir < 0 {
+		return
+	}
+	d := f.Dir
+	kind := "error"
+	if f.Op == "read" && f.Err == "eof" {
+		kind = "clean-eof"
+	}
+	if !c.script(1 - d).HalfClose { // a direction relays to the connection with the other index
+		return
+	}
+	lbl := "first-end:" + c05DirName[d] + ":" + kind + ",dst-half-closable"
+	cl = append(cl, lbl)
+	other := c.script(1 - d) // ... which is also the source of the other direction
+	if other.End == "hold" || other.End == "" {
+		n := 0
+		for _, e := range evs {
+			if e.Seq < f.Seq && e.Op == "read" && e.Conn == 1-d {
+				n += e.N
+			}
+		}
+		if n == other.total() {
+			cl = append(cl, lbl+",other-side-silent")
+		}
+	}
+	return
+}
+
 // c05Epochs performs the statistics epoch roll-overs of one case and keeps the books: what the
 // per-epoch counters showed right before each reset is accumulated, so that the sum over all epochs
 // can be compared with what was delivered; the session gauge is not an epoch counter and has to read
@@ -635,15 +728,15 @@ func c05RunPipes(c c05Case) (out c05Out) {
 	}
 	var ep c05Epochs
 	w.onEpoch = func() { ep.roll(pre.sessions) } // (no Proxy here: the gauge just has to stay what it was)
-	run := func(d int, src, dst c05View, tag string) {
+	run := func(d int, src, dst net.Conn, tag string) {
 		var pan any
 		defer func() { w.finish(d, pan) }()
 		defer func() { pan = recover() }()
 		halfPipe(src, dst, &wg, logger, tag, stats)
 	}
 	// exactly the wiring of Proxy()
-	go run(c05Up, c05View{client, c05Up}, c05View{covert, c05Up}, "Up C0DE000000000001")
-	go run(c05Down, c05View{covert, c05Down}, c05View{client, c05Down}, "Down C0DE000000000001")
+	go run(c05Up, client.view(c05Up), covert.view(c05Up), "Up C0DE000000000001")
+	go run(c05Down, covert.view(c05Down), client.view(c05Down), "Down C0DE000000000001")
 
 	returned := w.waitDone()
 	w.mu.Lock()
@@ -758,6 +851,14 @@ func c05RunPipes(c c05Case) (out c05Out) {
 	}
 	viols, accepted := c05JudgeStreams(evs, done)
 	out.viols = viols
+	w.mu.Lock()
+	wakes := append([]c05Wake(nil), w.wakes...)
+	w.mu.Unlock()
+	if v := c05JudgeIdle(evs, wakes); v != nil {
+		// reported first: it names the symptom (the tunnel stays up), the per-direction rules the mechanism
+		out.viols = append([]c05Viol{*v}, out.viols...)
+	}
+	out.classes = append(out.classes, c05EndClasses(c, evs)...)
 	for _, cn := range []*c05Conn{client, covert} {
 		if !cn.isClosed() {
 			out.viols = append(out.viols, c05Viol{"teardown:connection-left-open", fmt.Sprintf("the %s connection was never closed", c05ConnName[cn.idx])})
@@ -1008,6 +1109,25 @@ func c05HasReadFault(s *c05Script, n int) bool {
 // (every phase of the 4-call loop), and each direction running until it blocks or ends.
 var c05Scheds = []string{"", "1", "11", "111", strings.Repeat("0", 64), strings.Repeat("1", 64)}
 
+// c05CapsEnum: which of the two connections is half-closable (offers CloseWrite / CloseRead) in the
+// enumerations: none, both (client and covert are TCP-like), only the covert (what Proxy always
+// dials is a *net.TCPConn, while the client connection is whatever the transport wrapped).
+var c05CapsEnum = []string{"", "both", "covert"}
+
+func c05SetCaps(c *c05Case, caps string) {
+	switch caps {
+	case "both":
+		c.Client.HalfClose, c.Covert.HalfClose = true, true
+	case "covert":
+		c.Covert.HalfClose = true
+	case "client":
+		c.Client.HalfClose = true
+	default:
+		return
+	}
+	c.Label += " [half-closable: " + caps + "]"
+}
+
 func c05Replay(t *testing.T, rec *vh.Rec) bool {
 	p := vh.ReplayFile()
 	if p == "" {
@@ -1023,44 +1143,52 @@ func c05Replay(t *testing.T, rec *vh.Rec) bool {
 
 // Every single fault, at every position, under every enumeration schedule.
 func TestVerif_C05_single(t *testing.T) {
-	rec := vh.NewRec("C05", "single", "exhaustive: the two halfPipes wired as in Proxy over two scripted connections; base script of 6 chunks per direction (1 B, 700 B, 32767, 32768, 32769, 65536 / 32769, 3, 65536, 1500, 32768, 32767 = 8 Reads each with the 32 KiB buffer) x every single fault {EOF, ECONNRESET, EPIPE, timeout, EIO alone before chunk 0..6; the same five returned together with chunk 0..5; a zero-length read (0, nil) before chunk 0..6; a statistics epoch roll-over (ProxyStats.PrintAndReset / Reset + Stats.Reset) right before chunk 0..5, the per-epoch byte counters summed over the epochs must equal what was delivered; chunk 0 / 3 / 5 replaced by a full buffer whose Read reports len+1 / 2*len / MaxInt32 bytes with nil error, EOF or reset (a source that breaks the Read contract; the relay must not crash); Write 0 / 3 / 7 accepting 0 / 1 / len-1 bytes with nil error and every later Write returning (0, nil) (a destination that makes no progress without ever failing); on each of the 8 Writes: short write accepting 0 / 1 / len-1 with nil error, errors with 0 / 300 / len-1 bytes accepted; SetDeadline failing at call 0..9 on source or destination, as seen by either direction; Close failing, or taking 2 ms (lingering), on either connection} x base end {both peers silent (stall time-out), both EOF} x 6 schedules (alternating with 0-3 calls of phase shift, up runs first, down runs first); plus 48 request / late-reply histories (request at t=0, the first chunk of the other direction after 31 s / 125 s of silence, the requesting direction idle or sending a chunk every 20 s) and 144 one-directional streams in virtual time: {down, up} relays 8 chunks, the first after {0, 20 s}, then every {20 s, 100 s, 130 s (a real stall)}, ends with EOF, while the other side is {silent from the start, sends one request at t=0 and waits} x the 6 schedules - the virtual clock advances only when every direction is blocked in a Read, to the next chunk arrival or read-deadline expiry; non-trivial = an injected fault other than a plain EOF alone was hit; distinct by case")
+	rec := vh.NewRec("C05", "single", "exhaustive: the two halfPipes wired as in Proxy over two scripted connections; base script of 6 chunks per direction (1 B, 700 B, 32767, 32768, 32769, 65536 / 32769, 3, 65536, 1500, 32768, 32767 = 8 Reads each with the 32 KiB buffer) x every single fault {EOF, ECONNRESET, EPIPE, timeout, EIO alone before chunk 0..6; the same five returned together with chunk 0..5; a zero-length read (0, nil) before chunk 0..6; a statistics epoch roll-over (ProxyStats.PrintAndReset / Reset + Stats.Reset) right before chunk 0..5, the per-epoch byte counters summed over the epochs must equal what was delivered; chunk 0 / 3 / 5 replaced by a full buffer whose Read reports len+1 / 2*len / MaxInt32 bytes with nil error, EOF or reset (a source that breaks the Read contract; the relay must not crash); Write 0 / 3 / 7 accepting 0 / 1 / len-1 bytes with nil error and every later Write returning (0, nil) (a destination that makes no progress without ever failing); on each of the 8 Writes: short write accepting 0 / 1 / len-1 with nil error, errors with 0 / 300 / len-1 bytes accepted; SetDeadline failing at call 0..9 on source or destination, as seen by either direction; Close failing, or taking 2 ms (lingering), on either connection} x base end {both peers silent (stall time-out), both EOF} x 6 schedules (alternating with 0-3 calls of phase shift, up runs first, down runs first) x connection capabilities {both plain net.Conns; client and covert half-closable (they also have CloseWrite / CloseRead, like the *net.TCPConn Proxy dials); only the covert half-closable} - whatever the connections offer, a direction that was handed a failure (a clean EOF included) must bring the whole tunnel down: after that call the harness must never have to let virtual time pass (a stall time-out expire, a paused chunk arrive) to get the relay moving again; plus 48 request / late-reply histories (request at t=0, the first chunk of the other direction after 31 s / 125 s of silence, the requesting direction idle or sending a chunk every 20 s) and 144 one-directional streams in virtual time: {down, up} relays 8 chunks, the first after {0, 20 s}, then every {20 s, 100 s, 130 s (a real stall)}, ends with EOF, while the other side is {silent from the start, sends one request at t=0 and waits} x the 6 schedules - the virtual clock advances only when every direction is blocked in a Read, to the next chunk arrival or read-deadline expiry (the streams and histories too under each of the three capability sets); non-trivial = an injected fault other than a plain EOF alone was hit; distinct by case")
 	defer rec.Flush()
 	rec.Require("read:data+eof", "read:data+reset", "read:data+timeout", "read:reset", "read:epipe", "read:timeout", "read:eof", "read:zero-length", "close:slow",
 		"read:reports-more-than-buffer", "read:reports-more-than-buffer+err", "write:(0,nil)", "stats:epoch-rolled-over-during-tunnel",
 		"write:short", "write:err+partial", "write:err", "write:epipe", "write:timeout", "setdl:first", "setdl:nth", "close:err",
 		"stopped-by-close:at-read", "stopped-by-close:at-write", "stopped-by-close:at-setdl", "chunk:1B", "chunk:=32KiB", "chunk:>32KiB(split)",
-		"timeout:deadline-expired(virtual clock)", "stream:still-relaying-after-30s", "stream:still-relaying-after-2min", "stream:first-reply-after-30s-delivered")
+		"timeout:deadline-expired(virtual clock)", "stream:still-relaying-after-30s", "stream:still-relaying-after-2min", "stream:first-reply-after-30s-delivered",
+		"caps:plain", "caps:covert-half-closable", "caps:client-half-closable",
+		"first-end:up:clean-eof,dst-half-closable", "first-end:up:clean-eof,dst-half-closable,other-side-silent", "first-end:up:error,dst-half-closable",
+		"first-end:down:clean-eof,dst-half-closable", "first-end:down:clean-eof,dst-half-closable,other-side-silent", "first-end:down:error,dst-half-closable")
 	c05QuietStats(t)
 	if c05Replay(t, rec) {
 		return
 	}
 	rec.SetExhaustive(true)
 	idx := 0
-	for _, end := range []string{"hold", "eof"} {
-		for _, sc := range c05Scheds {
-			// the fault-free base run
-			idx++
-			if vh.Mine(idx) {
-				c := c05BaseCase(end, sc)
-				c.Label = "no injected fault, both peers end with " + end
-				c05Check(t, rec, c)
-			}
-			for _, f := range c05AllFaults() {
+	for _, caps := range c05CapsEnum {
+		for _, end := range []string{"hold", "eof"} {
+			for _, sc := range c05Scheds {
+				// the fault-free base run
 				idx++
-				if !vh.Mine(idx) {
-					continue
+				if vh.Mine(idx) {
+					c := c05BaseCase(end, sc)
+					c.Label = "no injected fault, both peers end with " + end
+					c05SetCaps(&c, caps)
+					c05Check(t, rec, c)
 				}
-				c := c05BaseCase(end, sc)
-				c05Apply(&c, f)
-				c.Label = f.String()
-				c05Check(t, rec, c)
+				for _, f := range c05AllFaults() {
+					idx++
+					if !vh.Mine(idx) {
+						continue
+					}
+					c := c05BaseCase(end, sc)
+					c05Apply(&c, f)
+					c.Label = f.String()
+					c05SetCaps(&c, caps)
+					c05Check(t, rec, c)
+				}
 			}
 		}
-	}
-	for _, c := range c05StreamCases() {
-		idx++
-		if vh.Mine(idx) {
-			c05Check(t, rec, c)
+		for _, c := range c05StreamCases() {
+			idx++
+			if vh.Mine(idx) {
+				c05SetCaps(&c, caps)
+				c05Check(t, rec, c)
+			}
 		}
 	}
 }
@@ -1125,19 +1253,21 @@ func c05StreamCases() []c05Case {
 
 // Pairs of faults: sampled in the quick tier, exhaustive in the thorough tier.
 func TestVerif_C05_pairs(t *testing.T) {
-	rec := vh.NewRec("C05", "pairs", "pairs of the single faults of sub-check 'single' injected into the same base script (both on one connection, on both connections, same or different directions); thorough tier: every unordered pair x the 6 schedules x the 2 base ends of 'single' (exhaustive), quick tier: rapid-sampled pairs x drawn schedule and base end; non-trivial and distinct as in 'single'")
+	rec := vh.NewRec("C05", "pairs", "pairs of the single faults of sub-check 'single' injected into the same base script (both on one connection, on both connections, same or different directions); thorough tier: every unordered pair x the 6 schedules x the 2 base ends of 'single' (exhaustive), quick tier: rapid-sampled pairs x drawn schedule and base end x drawn half-close capability {none, both, covert only, client only} (thorough: rotating over the pairs); non-trivial and distinct as in 'single'")
 	defer rec.Flush()
-	rec.Require("read:data+eof", "write:short", "write:err+partial", "setdl:nth", "close:err", "stopped-by-close:at-write")
+	rec.Require("read:data+eof", "write:short", "write:err+partial", "setdl:nth", "close:err", "stopped-by-close:at-write",
+		"caps:plain", "caps:covert-half-closable", "caps:client-half-closable", "first-end:up:clean-eof,dst-half-closable", "first-end:down:clean-eof,dst-half-closable")
 	c05QuietStats(t)
 	if c05Replay(t, rec) {
 		return
 	}
 	fs := c05AllFaults()
-	mk := func(i, j int, sched, end string) c05Case {
+	mk := func(i, j int, sched, end, caps string) c05Case {
 		c := c05BaseCase(end, sched)
 		c05Apply(&c, fs[i])
 		c05Apply(&c, fs[j])
 		c.Label = fs[i].String() + "  AND  " + fs[j].String()
+		c05SetCaps(&c, caps)
 		return c
 	}
 	if vh.Thorough() {
@@ -1149,7 +1279,8 @@ func TestVerif_C05_pairs(t *testing.T) {
 					for j := i + 1; j < len(fs); j++ {
 						idx++
 						if vh.Mine(idx) {
-							c05Check(t, rec, mk(i, j, sc, end))
+							// (the half-close capability rotates over the pairs; its full product is in 'single')
+							c05Check(t, rec, mk(i, j, sc, end, c05CapsEnum[idx%len(c05CapsEnum)]))
 						}
 					}
 				}
@@ -1162,7 +1293,8 @@ func TestVerif_C05_pairs(t *testing.T) {
 		j := rapid.IntRange(0, len(fs)-1).Draw(rt, "j")
 		sc := rapid.SampledFrom(c05Scheds).Draw(rt, "sched")
 		end := rapid.SampledFrom([]string{"hold", "hold", "eof"}).Draw(rt, "end")
-		c05Check(rt, rec, mk(i, j, sc, end))
+		caps := rapid.SampledFrom([]string{"", "both", "covert", "client"}).Draw(rt, "caps")
+		c05Check(rt, rec, mk(i, j, sc, end, caps))
 	})
 }
 
@@ -1223,6 +1355,7 @@ func c05GenScript(rt *rapid.T, name string, dirs []int) c05Script {
 	if rapid.IntRange(0, 39).Draw(rt, name+".slowclose") == 0 {
 		s.CloseMs = rapid.IntRange(1, 3).Draw(rt, name+".closems")
 	}
+	s.HalfClose = rapid.Bool().Draw(rt, name+".halfclose")
 	return s
 }
 
@@ -1246,10 +1379,13 @@ func c05Gen(rt *rapid.T) c05Case {
 }
 
 func TestVerif_C05_random(t *testing.T) {
-	rec := vh.NewRec("C05", "random", "rapid-drawn scripts for both connections: 0-8 read steps (chunks of 1 B .. 100000 B, biased to the 32 KiB buffer boundary, or with probability ~1/11 a zero-length read without error), each step with probability 1/4 arriving only after a virtual pause of 1 s .. 5 min (around the relay's 30 s / 2 min time-outs), each chunk with probability 1/8 returned together with an error {EOF, reset, EPIPE, time-out, EIO, unexpected EOF, ETIMEDOUT, ECONNABORTED}, end {silent, EOF, reset, time-out, EPIPE, EIO}, 0-2 write faults (call 0-12, accepted count 0/1/len-1/len-2/100/16384/32767/all, nil error or reset/EPIPE/time-out/EIO/ENOBUFS; a nil-error fault with probability 1/3 followed by (0, nil) from every later Write), a chunk with probability 1/40 replaced by a full buffer whose Read reports more bytes than the buffer holds, optional SetDeadline fault (either direction, call 0-10), optional Close error, optional lingering Close (1-3 ms); schedule: 1/3 real concurrency, 2/3 a drawn 0-48 step turn schedule then alternating; non-trivial = an injected fault other than a plain EOF alone was hit; distinct by case")
+	rec := vh.NewRec("C05", "random", "rapid-drawn scripts for both connections: 0-8 read steps (chunks of 1 B .. 100000 B, biased to the 32 KiB buffer boundary, or with probability ~1/11 a zero-length read without error), each step with probability 1/4 arriving only after a virtual pause of 1 s .. 5 min (around the relay's 30 s / 2 min time-outs), each chunk with probability 1/8 returned together with an error {EOF, reset, EPIPE, time-out, EIO, unexpected EOF, ETIMEDOUT, ECONNABORTED}, end {silent, EOF, reset, time-out, EPIPE, EIO}, 0-2 write faults (call 0-12, accepted count 0/1/len-1/len-2/100/16384/32767/all, nil error or reset/EPIPE/time-out/EIO/ENOBUFS; a nil-error fault with probability 1/3 followed by (0, nil) from every later Write), a chunk with probability 1/40 replaced by a full buffer whose Read reports more bytes than the buffer holds, optional SetDeadline fault (either direction, call 0-10), optional Close error, optional lingering Close (1-3 ms), each connection with probability 1/2 half-closable (CloseWrite / CloseRead offered); schedule: 1/3 real concurrency, 2/3 a drawn 0-48 step turn schedule then alternating; non-trivial = an injected fault other than a plain EOF alone was hit; distinct by case")
 	defer rec.Flush()
 	rec.Require("read:data+eof", "read:zero-length", "read:reports-more-than-buffer", "write:(0,nil)", "write:short", "write:err+partial", "setdl:first", "setdl:nth", "close:err", "close:slow", "sched:free", "sched:controlled", "stopped-by-close:at-write",
-		"timeout:deadline-expired(virtual clock)", "stream:still-relaying-after-30s", "stream:still-relaying-after-2min")
+		"timeout:deadline-expired(virtual clock)", "stream:still-relaying-after-30s", "stream:still-relaying-after-2min",
+		"caps:plain", "caps:covert-half-closable", "caps:client-half-closable",
+		"first-end:up:clean-eof,dst-half-closable", "first-end:up:clean-eof,dst-half-closable,other-side-silent",
+		"first-end:down:clean-eof,dst-half-closable", "first-end:down:clean-eof,dst-half-closable,other-side-silent")
 	c05QuietStats(t)
 	if c05Replay(t, rec) {
 		return
